@@ -161,6 +161,20 @@ pub fn judge(prop: &str, cases_path: &str, events_path: &str) -> Leg {
             Ok(v) => v,
             Err(_) => continue,
         };
+        if let Some(n) = ev["twin_pairs"].as_u64() {
+            leg.evals(2 * n);
+            let bad = ev["twin_bad"].as_array().cloned().unwrap_or_default();
+            leg.class(format!("concurrent-do-twins|{}", if bad.is_empty() { "own-answers" } else { "mixed-up" }));
+            leg.count("concurrent_do_twin_pairs", n);
+            if !bad.is_empty() {
+                leg.violation(
+                    "C03/answer-section-differs/concurrent-twin-with-other-do-bit",
+                    format!("{} of {} clients of concurrent same-question pairs (DO set / DO clear, 50 ms apart, upstream 0.3 s) did not get the upstream's answer to their own query (expected record types [1] without DO, [1, 46] with DO): {}", bad.len(), 2 * n, serde_json::Value::Array(bad.clone())),
+                    json!({"engine": "c03-e2e", "twin_bad": bad}),
+                );
+            }
+            continue;
+        }
         if let Some(qhex) = ev["malformed_query_hex"].as_str() {
             // a datagram the server cannot parse: silence is fine, but whatever it does send must itself be a well-formed DNS
             // message within the 512 octets of a client that advertised nothing
